@@ -315,6 +315,21 @@ def receive (d : Decoder) : Option Bytes → Except String Decoder
 
 def afterDelim (closing : Bool) : State := if closing then .epilogue else .part
 
+/-- `next_event` in state DATA (`start = false`) / DATA_START (`start = true`): one `_parse_data`
+call (`dataStep`) turned into an event -/
+def stepData (d : Decoder) (start : Bool) : Except String (Event × Decoder) :=
+  match dataStep d.boundary start d.buffer with
+  | .error err => .error err
+  | .ok (p, buf', start', nx) =>
+    let st' : State := match nx with
+      | some f => afterDelim f
+      | none => if start' then .dataStart else .data
+    let d1 := { d with buffer := buf', state := st' }
+    -- DATA_START: nothing is consumed while del_index == 0
+    if start' then .ok (.needData, d1)
+    else if start || !p.isEmpty || nx.isSome then .ok (.data p nx.isNone, d1)
+    else .ok (.needData, d1)
+
 /-- the body of `next_event` before the final `complete and NeedData` check -/
 def step (d : Decoder) : Except String (Event × Decoder) :=
   match d.state with
@@ -348,19 +363,8 @@ def step (d : Decoder) : Except String (Event × Decoder) :=
             | some m => if d2.partsDecoded > m then .error "RequestEntityTooLarge" else .ok (ev, d2)
             | none => .ok (ev, d2)
     | none => .ok (.needData, { d with searchPos := d.buffer.length - searchExtra })
-  | .dataStart | .data =>
-    let start := d.state == .dataStart
-    match dataStep d.boundary start d.buffer with
-    | .error err => .error err
-    | .ok (p, buf', start', nx) =>
-      let st' : State := match nx with
-        | some f => afterDelim f
-        | none => if start' then .dataStart else .data
-      let d1 := { d with buffer := buf', state := st' }
-      -- DATA_START: nothing is consumed while del_index == 0
-      if start' then .ok (.needData, d1)
-      else if start || !p.isEmpty || nx.isSome then .ok (.data p nx.isNone, d1)
-      else .ok (.needData, d1)
+  | .dataStart => stepData d true
+  | .data => stepData d false
   | .epilogue =>
     if d.complete then .ok (.epilogue d.buffer, { d with buffer := [], state := .complete })
     else .ok (.needData, d)
